@@ -415,6 +415,7 @@ struct GenOpts {
   int maxStr = 40;        // typical upper bound of generated strings
   bool allowRaw = false;  // raw values (JSON fragments)
   bool allowBin = false;  // raw values holding MessagePack bin/ext objects
+  bool malformedBin = false;  // ... and, now and then, bytes that only look like one (API histories only)
   bool binEdges = false;  // bin/ext payloads of 254..257 bytes too (8/16-bit length headers)
   bool allowNonFinite = true;
   bool allowNulInStr = true;
@@ -558,6 +559,23 @@ inline Val genScalar(Rng& r, const GenOpts& o) {
       }
       s += type;
       s += payload;
+    }
+    if (o.malformedBin && r.chance(1, 8)) {
+      // not a complete bin/ext object any more (cut short, or one byte too many): such bytes can only be
+      // stored with serialized(), and is<MsgPackBinary/Extension>() must answer false without looking
+      // beyond them
+      if (r.chance(1, 3)) {
+        // a lone header of one of the 16/32-bit families, with none or some of its length bytes
+        static const unsigned char codes[] = {0xc9, 0xc9, 0xc8, 0xc7, 0xc6, 0xc5, 0xc4, 0xd8, 0xd4};
+        s = std::string(1, char(codes[r.below(sizeof(codes))]));
+        size_t extra = size_t(r.below(4));
+        for (size_t j = 0; j < extra; j++)
+          s += char(r.chance(1, 2) ? 0 : r.below(256));
+      } else if (s.size() > 1 && r.chance(2, 3)) {
+        s.resize(1 + size_t(r.below(s.size() - 1)));
+      } else {
+        s += char(r.below(256));
+      }
     }
     return Val::raw(s);
   }
